@@ -160,6 +160,17 @@ def predicate(res, h, r):
         if (p is not None) != (k in accepted):
             res.violation(f"lookup({k!r}) = {p} but inserted = {k in accepted}", {"history": h, "key": k, "accepted": sorted(accepted)})
             break
+    # the originals kept next to their clones / deserialised copies: each answers for exactly the keys inserted up to the copy
+    for op_ in r.get("old_probes", []):
+        acc = set()
+        for o, st in list(zip(h["ops"], r["steps"]))[:op_["at_step"]]:
+            if "ins" in o and st["ok"]:
+                acc.add(o["ins"])
+        for k, f in zip(h["probes"], op_["found"]):
+            if f != (k in acc):
+                res.violation(f"the trie that was copied at step {op_['at_step']} answers lookup({k!r}) = {f} although it holds {k in acc} (later insertions went into the copy only)",
+                              {"history": h, "key": k, "at_step": op_["at_step"]})
+                break
     # rejected keys leave the trie unchanged
     steps = r["steps"]
     last = None
